@@ -41,3 +41,10 @@ type RWMutex struct{ verifrt.Mutex }
 
 func (m *RWMutex) RLock()   { m.Lock() }
 func (m *RWMutex) RUnlock() { m.Unlock() }
+
+// Cond is the real thing: it is only bound into checks that never start the cooperative
+// scheduler (mkoverlay -lenient).
+type Cond = sync.Cond
+type Locker = sync.Locker
+
+func NewCond(l Locker) *Cond { return sync.NewCond(l) }
